@@ -90,7 +90,9 @@ def check(case):
         vhdl = compile_source(src, "Top")
     except Rejected as e:
         out.status = "rejected"
-        out.labels.append("rejected:" + type(e.exc).__name__)
+        import re
+        out.labels.append("rejected:" + type(e.exc).__name__ + ":" +
+                          re.sub(r"[^A-Za-z_ ]+", "", str(e.exc))[:60].strip().replace(" ", "_"))
         out.counters["rejected"] = 1
         return out
     out.counters["vhdl_lines"] = vhdl.count("\n")
